@@ -11,8 +11,11 @@ seed = subprocess.run(["python3", os.path.join(HERE, "tools", "seed_table.py")],
 rows = ["| change | area | files | checks run (quick tier) | alarms |", "|---|---|---|---|---|"]
 AREA = {"E1": "statistics (specarray/npstats/xrstats)", "E2": "partitioning + C watershed", "E3": "instrument readers, SWAN core",
         "E4": "writers", "E5": "site selection", "E6": "regrid / smooth / interp / split", "E7": "construct + model converters",
-        "E8": "tracking + dask plumbing"}
-for d in sorted(glob.glob(os.path.join(HERE, "seeded_equiv", "*"))):
+        "E8": "tracking + dask plumbing", "E9": "SWAN core reader/writer + multi-file readers (round 2)", "E10": "instrument readers (round 2)",
+        "E11": "watershed C code + numpy partition functions (round 2)", "E12": "statistics and transforms of specarray.py (round 2)",
+        "E13": "accessor / selection / writers plumbing (round 2)", "E14": "dask / apply_ufunc plumbing (round 2)",
+        "E15": "core/utils: regrid, smooth, dispersion (round 2)", "E16": "construct, model converters, tracking (round 2)"}
+for d in sorted(glob.glob(os.path.join(HERE, "seeded_equiv", "*")), key=lambda x: int(os.path.basename(x)[1:]) if os.path.basename(x)[1:].isdigit() else 0):
     if not os.path.isdir(d):
         continue
     m = json.load(open(os.path.join(d, "meta.json")))
